@@ -2,7 +2,7 @@
     results, used by the generated [cases_*.v] files of the correspondence check.
     Nothing here is proved or used in a proof. *)
 From Coq Require Import Floats List NArith ZArith Bool.
-From Cfr.theories Require Import Num FInst Tree Strat Eval.
+From Cfr.theories Require Import Num FInst Tree Strat Eval Solve.
 Import ListNotations.
 
 Inductive out :=
@@ -141,3 +141,94 @@ Definition o_eq (a b : option prof) : out :=
 Definition FT (p : float) : fgnode := @GTerm FNum p.
 Definition FC (info : option N) (outs : list (float * fgnode)) : fgnode := @GChance FNum info outs.
 Definition FP (pl : bool) (info : N) (acts : list (N * fgnode)) : fgnode := @GPlayer FNum pl info acts.
+
+(** ** Solving *)
+Definition fext := @ext FNum.
+Definition fparams := @params FNum.
+
+Definition ext_of_float (x : float) : option fext :=
+  if f_is_nan x then None
+  else if PrimFloat.eqb x infinity then Some (@PosInf FNum)
+  else if PrimFloat.eqb x neg_infinity then Some (@NegInf FNum)
+  else Some (@Fin FNum x).
+
+(** [RegretParams::new]: [None] = the constructor panics *)
+Definition params_new (a b c d : float) : option fparams :=
+  match ext_of_float a, ext_of_float b, ext_of_float c, ext_of_float d with
+  | Some a, Some b, Some c, Some d =>
+      let p := @mkParams FNum a b c d in
+      if @params_ok FNum p then Some p else None
+  | _, _, _, _ => None
+  end.
+
+(** pinned draws: [tab.[id].[pass mod len] mod (number of weights)], as the executor's hook *)
+Definition table_draw (chance player : list (list N)) : @oracle FNum :=
+  fun is_chance id pass ws =>
+    let row := nth id (if is_chance then chance else player) [] in
+    match row with
+    | [] => O
+    | _ => N.to_nat (N.modulo (nth (N.to_nat (N.modulo pass (N.of_nat (length row)))) row 0%N)
+                              (N.of_nat (length ws)))
+    end.
+
+Definition no_draw : @oracle FNum := fun _ _ _ _ => O.
+
+Definition fuel_cap : N := 200000%N.
+
+Inductive solved :=
+| SolveOk (strats : prof) (bounds : option (float * float)) (ran : N)
+| SolveThreadOverflow
+| SolveParamsPanic
+| SolveSkip.
+
+(** [Game::solve]; [threads = 0] means the machine's parallelism (never 1 here), any
+    thread count other than one goes through the multi-threaded solvers, which by
+    the theorems of C06/C07 return what the single-threaded ones return. *)
+Definition f_solve (r : res fgame) (m : method) (draw : @oracle FNum) (p : option fparams)
+           (budget : N) (max_reg : float) (threads : N) : solved :=
+  match r, p with
+  | Ok g, Some p =>
+      if negb (N.eqb threads 1) && N.leb (2 ^ 64) (3 * threads) then SolveThreadOverflow
+      else
+        let fuel := N.to_nat (N.min budget fuel_cap) in
+        let '(s, b, ran) := @solve_single FNum g m draw p fuel (fun b => PrimFloat.ltb b max_reg) in
+        SolveOk s b ran
+  | Ok _, None => SolveParamsPanic
+  | _, _ => SolveSkip
+  end.
+
+Definition p_of_solved (s : solved) : option prof :=
+  match s with SolveOk p _ _ => Some p | _ => None end.
+
+Definition o_solved (s : solved) : out :=
+  match s with
+  | SolveOk _ (Some (b1, b2)) ran => o_ok [OF b1; OF b2; OF (f_max b1 b2); ON ran]
+  | SolveOk _ None ran => o_ok [OF infinity; OF infinity; OF infinity; ON ran]
+  | SolveThreadOverflow => o_err 0
+  | SolveParamsPanic => OTag 4 []
+  | SolveSkip => o_skip
+  end.
+
+Definition preset (n : N) : option fparams :=
+  Some (match n with
+        | 0 => @p_vanilla FNum | 1 => @p_lcfr FNum | 2 => @p_cfr_plus FNum
+        | 3 => @p_dcfr FNum | 4 => @p_dcfr_prune FNum | _ => @p_default FNum
+        end)%N.
+
+Definition o_ext (e : fext) : out :=
+  match e with
+  | NegInf => OF neg_infinity
+  | PosInf => OF infinity
+  | Fin x => OF x
+  end.
+Definition o_params (p : option fparams) : out :=
+  match p with
+  | Some p => OL [o_ext (a_pos p); o_ext (a_neg p); o_ext (a_strat p); o_ext (a_nopos p)]
+  | None => o_panic
+  end.
+Definition o_presets : out :=
+  o_ok [OL (map (fun n => o_params (preset n)) [0; 1; 2; 3; 4; 5]%N)].
+
+(** raw access for monitors: the flat profile *)
+Definition o_flat (p : option prof) : out :=
+  match p with Some p => o_ok [ofl (fst p); ofl (snd p)] | None => o_skip end.
